@@ -34,15 +34,15 @@ def run(ctx):
         ctx.cfg = cfg
         und, sites = panic_rules.panic_freedom(ctx, prog, "R1", "R2", "writer", cfg)
         ctx.floor("R1", "panic sources reachable from the writer API", len(sites), 90, semantic=False)
-        validation_rules.add_point_validation(ctx, prog, "R4")
-        bounds_rules.validation_before_update(ctx, prog, "R4")
-        validation_rules.prototype_validation(ctx, prog, "R5")
-        validation_rules.flag_value_pairs(ctx, prog, "R5")
-        bound_rules.loop_progress(ctx, prog, "R6", "writer", floor=8)
-        bound_rules.allocation_sizes(ctx, prog, "R6", "writer")
-        bound_rules.equal_length_classes(ctx, prog, "R6")
+        ctx.call(validation_rules.add_point_validation, prog, "R4")
+        ctx.call(bounds_rules.validation_before_update, prog, "R4")
+        ctx.call(validation_rules.prototype_validation, prog, "R5")
+        ctx.call(validation_rules.flag_value_pairs, prog, "R5")
+        ctx.call(bound_rules.loop_progress, prog, "R6", "writer", floor=8)
+        ctx.call(bound_rules.allocation_sizes, prog, "R6", "writer")
+        ctx.call(bound_rules.equal_length_classes, prog, "R6")
         if cfg == "lib":
-            xml_rules.xml_name_start(ctx, prog, "R7")
-            xml_rules.escaping_gate(ctx, prog, "R8")
-        header_rules.publication_order(ctx, prog, "R9")
+            ctx.call(xml_rules.xml_name_start, prog, "R7")
+            ctx.call(xml_rules.escaping_gate, prog, "R8")
+        ctx.call(header_rules.publication_order, prog, "R9")
     ctx.cfg = None
